@@ -36,6 +36,12 @@ W = [
  ("fix: PxE1::from_u64 returned NaR", "C14", "PxE1<3>::from_u64(2^63)=0x80000000 (NaR) want 0x60000000; larger values gave a stray bit"),
  ("fix: PxE1::from_i32 was a half-converted", "C14", "PxE1<N>::from_i32 wrong for ~60 % of all values, every width; NaR for i32::MIN"),
  ("fix: PxE1::to_i32 wrapped", "C14", "PxE1<18>(0x1ffff).to_i32()=-1 want 2147483647"),
+ ("fix: posit-to-PxE<32> conversions", "C16", "PxE2<32>::from_p16e1(0x0001), PxE2<32>::from_p8e0(0x01), PxE1<32>::from_p8e0(0x01): 'attempt to shift right with overflow' in overflow-checked builds"),
+ ("fix: PxE2 mul_add, div and sqrt shifted", "C16", "PxE2<32> 0x1.mul_add(0x1,0x1), 0x1/0x40000000, sqrt(0x1): shift-overflow panics in overflow-checked builds"),
+ ("fix: Q32E2 -> PxE2<N> shifted", "C16", "PxE2<31>::from(&Q32E2 holding minpos), PxE2<10>::from(&Q32E2 holding 0x100): overflow panics in overflow-checked builds"),
+ ("fix: PxE1::from_f64/from_f32 underflowed", "C16", "PxE1<2>::from_f32(1e-45), PxE1<32>::from_f32(0x21ffffff): 'attempt to subtract with overflow' in overflow-checked builds"),
+ ("fix: P16E1::sqrt relied on wrapping", "C16", "P16E1::sqrt(0x7fff) (also asinh/acosh(0x7fff)): 'attempt to subtract with overflow' in overflow-checked builds"),
+ ("fix: pow2i overflowed", "C16", "P32E2::exp10(NaR), exp2 / powf / sinh / tanh of large arguments: 'attempt to shift left with overflow' in overflow-checked builds"),
  ("fix: PxE1::from_pxe2 added the raw", "C14", "PxE1<3>::from_pxe2(PxE2<6> 0x13)=0x40000000 want 0x60000000"),
 ]
 
